@@ -52,6 +52,24 @@ def mkcase(rng, t, sep, ic_names, unique):
     return c
 
 
+def _renames(rng, c, t, sep, ic, candidates):
+    """a node resolved before is renamed (the path attribute assigned), then resolved again under the new and the old name"""
+    cur = [[l, v] for l, v in c["names"]]
+    for x in candidates:
+        if x == t[0]:
+            continue
+        old_abs = rc.abs_path(t, cur, sep, x)
+        new = "rn%d" % x
+        c["queries"].append({"fn": "rename", "label": x, "name": new, "relax": False, "ignorecase": False, "start": t[0], "path": ""})
+        for e in cur:
+            if e[0] == x:
+                e[1] = new
+        relax = rng.random() < 0.4
+        c["queries"].append({"fn": "get", "start": rng.choice([t[0], x]), "path": rc.abs_path(t, cur, sep, x),
+                             "ignorecase": ic, "relax": relax, "expect": x})
+        c["queries"].append({"fn": "get", "start": t[0], "path": old_abs, "ignorecase": ic, "relax": relax})
+
+
 def generate(tier, rng):
     nmax = 5 if tier == "quick" else 6
     for n in range(1, nmax + 1):
@@ -74,6 +92,26 @@ def generate(tier, rng):
                         c["queries"].append({"fn": "get", "start": m, "path": rc.rel_path(t, c["names"], sep, m, x),
                                              "ignorecase": ic, "relax": relax, "expect": x})
             yield c
+    # scale: wide and deep trees (an index or a shortcut that only engages above a cut-off)
+    for sh in gen.big_shapes(rng, tier):
+        t = gen.labelled(sh, rng, True)
+        sep = rng.choice(["/", "/", ";"])
+        ic = rng.random() < 0.3
+        names = rc.big_names(rng, t)
+        c = {"fam": "resolve", "tree": t, "names": names, "sep": sep, "pathattr": "name", "queries": [], "typed": [], "cls": rng.choice([None, None, "eq", "falsy"])}
+        labs = gen.tree_labels(t)
+        dl = gen.deep_labels(t)
+        targets = [dl[-1], dl[len(dl) // 2], labs[-1], labs[len(labs) // 2]] + [rng.choice(labs) for _ in range(6)]
+        for x in targets:
+            for m in (t[0], rng.choice(labs), dl[-1]):
+                relax = rng.random() < 0.5
+                c["queries"].append({"fn": "get", "start": m, "path": rc.abs_path(t, names, sep, x), "ignorecase": ic, "relax": relax, "expect": x})
+                c["queries"].append({"fn": "get", "start": m, "path": rc.rel_path(t, names, sep, m, x), "ignorecase": ic, "relax": relax, "expect": x})
+        for _ in range(8):
+            c["queries"].append({"fn": "get", "start": rng.choice(labs), "path": rc.random_path(rng, names, sep, False, 4),
+                                 "ignorecase": ic, "relax": rng.random() < 0.5})
+        _renames(rng, c, t, sep, ic, targets + [labs[1], labs[len(labs) // 3]])
+        yield c
     for _ in range(300 if tier == "quick" else 5000):
         t = gen.labelled(gen.random_shape(rng, rng.randrange(2, 9 if tier == "quick" else 16)), rng, True)
         sep = rng.choice(["/", "/", ";", "::"])
@@ -89,6 +127,9 @@ def generate(tier, rng):
             c["queries"].append({"fn": "get", "start": rng.choice(labs),
                                  "path": rc.random_path(rng, c["names"], sep, False, 4 if tier == "quick" else 6),
                                  "ignorecase": q_ic, "relax": rng.random() < 0.5})
+        if rng.random() < 0.3 and ascii_only and rc.names_ok(c["names"], sep) and c.get("pathattr") == "name" and not c.get("typed") \
+                and len(c["names"]) == len(labs):
+            _renames(rng, c, t, sep, ic, rng.sample(labs, min(2, len(labs))))
         yield c
 
 
@@ -97,6 +138,8 @@ def judge(case, impl, drv):
         return False, False
     p_ok = c_ok = True
     for q, r, m, s in zip(case["queries"], impl, drv["mirror"], drv["spec"]):
+        if q["fn"] == "rename":
+            continue
         if r != m:
             c_ok = False
         if r != s:
